@@ -274,15 +274,6 @@ Section Wrap.
   Definition PW (k : nat) (st : bst) : Prop :=
     exists B, st = mkS TW B 0 true /\ Inv TW B k.
 
-  Lemma zcount_zseq x n : zcount x (zseq n) = if (0 <=? x) && (x <? Z.of_nat n) then 1%nat else 0%nat.
-  Proof.
-    destruct (Z.leb_spec 0 x), (Z.ltb_spec x (Z.of_nat n)); cbn [andb].
-    - unfold zseq. apply (zcount_map_seq_1 x Z.of_nat 0 n (Z.to_nat x)); lia.
-    - apply zcount_0. rewrite In_zseq. lia.
-    - apply zcount_0. rewrite In_zseq. lia.
-    - apply zcount_0. rewrite In_zseq. lia.
-  Qed.
-
   Lemma wstep k st : (k < nd)%nat -> PW k st -> PW (S k) (add_bond st (Z.of_nat (0 + k)) [-1; 0]).
   Proof.
     intros Hk [B [-> I]]. cbn [Nat.add].
@@ -498,7 +489,7 @@ Section Prep.
                   else if k' =? -1 then zcount kb qvb else 0%nat.
   Proof.
     unfold cT, TQ, TQr. rewrite <- app_comm_cons. cbn [dget]. destruct (Z.eqb_spec k' 0); [reflexivity|].
-    rewrite dget_app, dget_tens, krows_length. cbn [Z.of_nat].
+    rewrite dget_app, dget_tens, krows_length. change (Z.of_nat 1) with 1.
     destruct (Z.leb_spec 1 k'), (Z.ltb_spec k' (Z.of_nat (1 + n))); cbn [andb].
     - cbn [mkk t_bids]. rewrite nth_map_seq by lia. reflexivity.
     - cbn [dget]. destruct (k' =? -1); reflexivity.
@@ -572,9 +563,9 @@ Section Prep.
       intros k s Hk P. apply qstep1; assumption. }
     rewrite H1.
     assert (EV : (if negb tr then zrange 0 (2 * Z.of_nat n)
-                  else zrange (Z.of_nat n) (2 * Z.of_nat n) ++ zrange 0 (Z.of_nat n)) = qvb).
+                  else zrange (Z.of_nat n) (2 * Z.of_nat n) ++ zseq n) = qvb).
     { unfold qvb. destruct tr; cbn [negb].
-      - replace (2 * Z.of_nat n) with (Z.of_nat (n + n)) by lia. rewrite zrange_nat, zrange_0. reflexivity.
+      - replace (2 * Z.of_nat n) with (Z.of_nat (n + n)) by lia. rewrite zrange_nat. reflexivity.
       - replace (2 * Z.of_nat n) with (Z.of_nat (2 * n)) by lia. apply zrange_0. }
     rewrite EV.
     replace (zrep 2%nat (2 * Z.of_nat n)) with (repeat 2%nat (2 * n)) by (unfold zrep; f_equal; lia).
@@ -593,7 +584,10 @@ Section Prep.
     destruct H3 as [B [E I]]. exists B. split; [exact E|].
     replace (2 * n)%nat with (n + n)%nat by lia. split; [apply (inv_keys _ _ _ I)|].
     apply (WF_of_Inv _ _ _ I).
-    - unfold TQ, TQr. rewrite dkeys_app. cbn [dkeys map fst]. fold (@dkeys tensor). rewrite dkeys_tens, krows_length.
+    - unfold TQ, TQr. rewrite dkeys_app.
+      change (dkeys ((0, mkT 0 (repeat 2%nat n) (zseq n) REF_main) :: tens mkk 1 (map krow (seq 0 n))))
+        with (0 :: dkeys (tens mkk 1 (map krow (seq 0 n)))).
+      rewrite dkeys_tens, krows_length. cbn [dkeys map fst].
       change (0 :: map Z.of_nat (seq 1 n)) with (map Z.of_nat (seq 0 (S n))).
       apply NoDup_app_disj.
       + apply FinFun.Injective_map_NoDup; [intros a b E'; lia | apply seq_NoDup].
